@@ -294,6 +294,8 @@ function sizedTemplates(thorough) {
   const out = []
   for (const [kind, f] of kinds) for (const n of sizes) {
     if (kind === 'inline-scripts' && n > 10000) continue
+    // (template definitions are looked up linearly while parsing: 2.5*10^5 of them take about an hour; the counter walk needs no more than the others)
+    if (kind === 'template-definitions' && n > 60000) continue
     out.push({ group: 'size', name: `${kind} x ${n}`, make: () => { let s = ''; for (let i = 0; i < n; i++) s += f(i); return { files: [['m', s]], scripts: [] } }, big: n >= 2300, n })
   }
   // nested depth: the counter continues in inner function scopes
